@@ -87,8 +87,6 @@ func (verify *VerifyServerController) Handle(in util.Container) (util.Container,
 // - B: server public key
 // - signature: from server session public key, server name, client session public key
 func (verify *VerifyServerController) handlePairVerifyStart(in util.Container) (util.Container, error) {
-	verify.step = VerifyStepStartResponse
-
 	clientPublicKey := in.GetBytes(TagPublicKey)
 	log.Debug.Println("->     A:", hex.EncodeToString(clientPublicKey))
 	if len(clientPublicKey) != 32 {
@@ -118,6 +116,9 @@ func (verify *VerifyServerController) handlePairVerifyStart(in util.Container) (
 	encryptedOut.SetBytes(TagSignature, signature)
 
 	encryptedBytes, mac, _ := chacha20poly1305.EncryptAndSeal(verify.session.EncryptionKey[:], []byte("PV-Msg02"), encryptedOut.BytesBuffer().Bytes(), nil)
+
+	// the exchange is open only now that the request was accepted
+	verify.step = VerifyStepStartResponse
 
 	out := util.NewTLV8Container()
 	out.SetByte(TagSequence, verify.step.Byte())
